@@ -190,3 +190,28 @@ def write_file(name, data):
 def read_file(name, binary=True):
     with open(name, 'rb' if binary else 'r') as f:
         return f.read()
+
+# ------------------------------------------------------------------ per-case wall-clock watchdog (inconclusive, never a verdict)
+
+class CaseTimeout(Exception):
+    pass
+
+class time_limit:
+    """with time_limit(s): ... raises CaseTimeout in the main thread after s seconds (SIGALRM). The C simulators
+    poll signals inside their loops, so this also interrupts a run() that never reaches its stop address."""
+    def __init__(self, seconds):
+        self.seconds = int(max(1, seconds))
+
+    def _fire(self, signum, frame):
+        raise CaseTimeout()
+
+    def __enter__(self):
+        import signal
+        self._old = signal.signal(signal.SIGALRM, self._fire)
+        signal.alarm(self.seconds)
+
+    def __exit__(self, *exc):
+        import signal
+        signal.alarm(0)
+        signal.signal(signal.SIGALRM, self._old)
+        return False
